@@ -527,6 +527,32 @@ func (st *c04State) gradientOne(cbase, nbase, nstops, t int) {
 	if !st.probe(0, 16, fail) {
 		return
 	}
+	// a blend works on the raw register bytes, whatever they encode: the gradient value (alpha 0)
+	// copied through a blend with transparent at t = 0 resp. t = 255, or halved at t = 128
+	{
+		gsel := uint8(cbase-1) & 63
+		var bc ivg.Color
+		switch (cbase + nbase + nstops) % 3 {
+		case 0:
+			bc = ivg.BlendColor(0x00, 0xc0|gsel, 0x7f)
+		case 1:
+			bc = ivg.BlendColor(0xff, 0x7f, 0xc0|gsel)
+		default:
+			bc = ivg.BlendColor(0x80, 0xc0|gsel, 0x7f)
+		}
+		follow := []rec.Call{
+			{M: rec.MSetCSel, Adj: uint8(cbase-2) & 63},
+			{M: rec.MSetCReg, C: bc},
+		}
+		for i := range follow {
+			st.applyBoth(&follow[i])
+		}
+		if !st.probe(0, 16, func(key, what string) { fail("through-blend:"+key, what) }) {
+			return
+		}
+		back := rec.Call{M: rec.MSetCSel, Adj: gsel}
+		st.applyBoth(&back)
+	}
 	// the paint is resolved when the path STARTS: change one register between two paths that
 	// use the same gradient value and probe again (no colour-register write in between for the
 	// number-register changes)
@@ -566,30 +592,6 @@ func (st *c04State) gradientOne(cbase, nbase, nstops, t int) {
 			if !st.probe(0, 16, func(key, what string) { fail("after-creg-write:"+key, what) }) {
 				return
 			}
-		}
-	}
-	// a blend works on the raw register bytes, whatever they encode: the gradient value (alpha 0)
-	// copied through a blend with transparent at t = 0 resp. t = 255, or halved at t = 128
-	{
-		gsel := uint8(cbase-1) & 63
-		var bc ivg.Color
-		switch (cbase + nbase + nstops) % 3 {
-		case 0:
-			bc = ivg.BlendColor(0x00, 0xc0|gsel, 0x7f)
-		case 1:
-			bc = ivg.BlendColor(0xff, 0x7f, 0xc0|gsel)
-		default:
-			bc = ivg.BlendColor(0x80, 0xc0|gsel, 0x7f)
-		}
-		follow := []rec.Call{
-			{M: rec.MSetCSel, Adj: uint8(cbase-2) & 63},
-			{M: rec.MSetCReg, C: bc},
-		}
-		for i := range follow {
-			st.applyBoth(&follow[i])
-		}
-		if !st.probe(0, 16, func(key, what string) { fail("through-blend:"+key, what) }) {
-			return
 		}
 	}
 	p := st.vm.StartPath(0, 16)
